@@ -206,6 +206,21 @@ def build_cases(tier: str, seed: int) -> tuple[list[dict[str, Any]], dict[str, A
             for real in ("A", "B"):
                 add("prior-db", ids, E, depth, skip, False, prior_db=True, real=real)
     info["prior-db"] = "the database already holds session_transition rows of an earlier scan of the same target"
+    # a second scan of the same target into the same REAL database file after the ECU changed (reflash): the rows the
+    # second run writes must describe what the second run found (cases run one after the other in one worker, the
+    # first of each pair only fills the database)
+    if tier == "quick":
+        pairs = [(([1, 2, 4], via), ([1, 2, 4], [[1, 1], [1, 4], [4, 1], [4, 2], [2, 1]]))]
+    else:
+        pairs = [(([1, 2, 4], via), ([1, 2, 4], [[1, 1], [1, 4], [4, 1], [4, 2], [2, 1]])),
+                 (([1, 2, 3], g3[-1]), ([1, 2, 3], g3[len(g3) // 2])),
+                 (([1, 2, 3], g3[len(g3) // 3]), ([1, 2, 3], g3[-1]))]
+    for pi, ((ids1, E1), (ids2, E2)) in enumerate(pairs):
+        for depth in (2, 3):
+            add("real-db-rescan", ids2, E2, depth, [], False, rescan={"first": {"sessions": ids1, "E": E1}},
+                db_tag=f"{pi}-{depth}")
+    info["real-db-rescan"] = ("the real DBHandler on one sqlite file: a first scan of the target (other session graph), "
+                              "then the judged scan; rows = session_transition rows of the judged run")
     # skip lists given as range expressions (nested / overlapping / repeated ranges denote their union)
     far = [1, 2, 3, 0x60, 0x61]
     Efar = [[1, 1], [1, 2], [1, 3], [1, 0x60], [0x60, 0x61], [2, 1], [3, 1], [0x60, 1], [0x61, 1], [2, 0x61]]
@@ -233,6 +248,19 @@ def build_cases(tier: str, seed: int) -> tuple[list[dict[str, Any]], dict[str, A
 def _scan(case: dict[str, Any]) -> dict[str, Any]:
     from harness.c09_ecu import run_scan
 
+    if case.get("rescan"):
+        import shutil
+        import tempfile
+
+        d = tempfile.mkdtemp(prefix="c09db-")
+        try:
+            path = f"{d}/scan.sqlite"
+            first = dict(case, sessions=case["rescan"]["first"]["sessions"], E=case["rescan"]["first"]["E"], db_path=path)
+            first.pop("rescan")
+            run_scan(first)                       # fills the database; judged elsewhere (same graph families)
+            return run_scan(dict(case, db_path=path))
+        finally:
+            shutil.rmtree(d, ignore_errors=True)
     return run_scan(case)
 
 
